@@ -10,7 +10,7 @@ from .cache_data import SeenSet, is_caching_enabled
 from .conclusion import Conclusion
 from .hashed_data import HashedIterable, HashedValue
 from .rxnode import ColorLegend
-from .symbolic import LogicalOperator, SymbolicExpression, ElseIf, Union as EQLUnion, Literal
+from .symbolic import LogicalOperator, SymbolicExpression, ElseIf, Union as EQLUnion, Literal, Flatten
 
 
 @dataclass(eq=False)
@@ -28,10 +28,14 @@ class ConclusionSelector(LogicalOperator, ABC):
         if not conclusions:
             return
         required_vars = HashedIterable()
+        flattened = set()
         for conclusion in conclusions:
             vars_ = conclusion._unique_variables_.filter(lambda v: not isinstance(v.value, Literal))
             required_vars.update(vars_)
-        required_output = {k: v for k, v in output.items() if k in required_vars}
+            # a flattened expression has one element per row like a variable has one value, rows that differ in it
+            # are different matches
+            flattened.update(e._id_ for e in conclusion._descendants_ if isinstance(e, Flatten))
+        required_output = {k: v for k, v in output.items() if k in required_vars or k in flattened}
         if not self.concluded_before[not self._is_false_].check(required_output):
             self._conclusion_.update(conclusions)
             self.concluded_before[not self._is_false_].add(required_output)
